@@ -334,6 +334,105 @@ impl<C: CurveAffine> Schedule<C> {
     }
 }
 
+/// Verification hook H7: drives the private batch-affine machinery of
+/// [`msm_best`] (`batch_add`, `Schedule`) from an out-of-tree model-checking
+/// harness. The wrappers only marshal between plain coordinates and the
+/// private `Affine` / `BucketAffine` / `SchedulePoint` types and call the
+/// private functions unchanged. Add-only, compiled only with the
+/// `verif-hooks` feature.
+#[cfg(feature = "verif-hooks")]
+pub mod verif {
+    use super::{batch_add, Affine, BucketAffine, Schedule, SchedulePoint, BATCH_SIZE};
+    use crate::CurveAffine;
+
+    /// Affine coordinates `(x, y)` of a point that is not the identity.
+    pub type Xy<C> = (<C as CurveAffine>::Base, <C as CurveAffine>::Base);
+
+    fn to_bucket<C: CurveAffine>(b: &Option<Xy<C>>) -> BucketAffine<C> {
+        match b {
+            None => BucketAffine::None,
+            Some((x, y)) => BucketAffine::Point(Affine { x: *x, y: *y }),
+        }
+    }
+
+    fn from_bucket<C: CurveAffine>(b: &BucketAffine<C>) -> Option<Xy<C>> {
+        match b {
+            BucketAffine::None => None,
+            BucketAffine::Point(a) => Some((a.x, a.y)),
+        }
+    }
+
+    /// Calls the private `batch_add` unchanged. A bucket is `None` (identity)
+    /// or `Some((x, y))`; a schedule point is `(base_idx, buck_idx, sign)`.
+    pub fn verif_batch_add<C: CurveAffine>(
+        size: usize,
+        buckets: &mut [Option<Xy<C>>],
+        points: &[(usize, usize, bool)],
+        bases: &[Xy<C>],
+    ) {
+        let mut bs: Vec<BucketAffine<C>> = buckets.iter().map(to_bucket::<C>).collect();
+        let pts: Vec<SchedulePoint> =
+            points.iter().map(|&(b, k, s)| SchedulePoint::new(b, k, s)).collect();
+        let bases: Vec<Affine<C>> = bases.iter().map(|&(x, y)| Affine { x, y }).collect();
+        batch_add(size, &mut bs, &pts, &bases);
+        for (out, b) in buckets.iter_mut().zip(bs.iter()) {
+            *out = from_bucket(b);
+        }
+    }
+
+    /// The private `Schedule` together with the `Affine` copies of the bases
+    /// it works on (what `msm_best` keeps per window).
+    pub struct VerifSchedule<C: CurveAffine> {
+        sched: Schedule<C>,
+        bases: Vec<Affine<C>>,
+    }
+
+    impl<C: CurveAffine> VerifSchedule<C> {
+        /// `Schedule::new(c)` over the given bases.
+        pub fn new(c: usize, bases: &[Xy<C>]) -> Self {
+            Self {
+                sched: Schedule::new(c),
+                bases: bases.iter().map(|&(x, y)| Affine { x, y }).collect(),
+            }
+        }
+
+        /// `Schedule::contains`.
+        pub fn contains(&self, buck_idx: usize) -> bool {
+            self.sched.contains(buck_idx)
+        }
+
+        /// `Schedule::add`.
+        pub fn add(&mut self, base_idx: usize, buck_idx: usize, sign: bool) {
+            self.sched.add(&self.bases, base_idx, buck_idx, sign)
+        }
+
+        /// `Schedule::execute`.
+        pub fn execute(&mut self) {
+            self.sched.execute(&self.bases)
+        }
+
+        /// Number of pending schedule points.
+        pub fn ptr(&self) -> usize {
+            self.sched.ptr
+        }
+
+        /// Number of buckets.
+        pub fn num_buckets(&self) -> usize {
+            self.sched.buckets.len()
+        }
+
+        /// Current content of bucket `i`.
+        pub fn bucket(&self, i: usize) -> Option<Xy<C>> {
+            from_bucket(&self.sched.buckets[i])
+        }
+
+        /// The batch size after which `add` flushes.
+        pub fn batch_size() -> usize {
+            BATCH_SIZE
+        }
+    }
+}
+
 /// Performs a multi-scalar multiplication operation.
 ///
 /// This function will panic if coeffs and bases have a different length.
